@@ -117,6 +117,14 @@ def load_specs():
                 pending = (tags, ' '.join(x for x in t if x not in tags))
             elif line.strip().startswith('//') or not line.strip():
                 continue
+            elif line.startswith('@POST2('):
+                x = line[line.index('(') + 1:line.rindex(')')]
+                for macro, tg, lab in [('W_WORDS_OK', ['C01', 'C05', 'C07', 'C13'], 'size/capacity words of %s are a reachable encoding' % x),
+                                       ('W_CELL_OK', ['C02', 'C09', 'C13'], 'every slot of %s below size is alive, every slot above is raw' % x),
+                                       ('W_TOK_OK', ['C02', 'C13'], 'no tracked element of %s sits in a raw slot' % x),
+                                       ('W_BLK_OK', ['C06', 'C13'], 'the heap buffer of %s is an outstanding block of exactly capacity elements' % x)]:
+                    cur.clauses.append((tg, lab, '__CPROVER_ensures(%s(%s))' % (macro, x)))
+                pending = None
             elif line.startswith('@POST(') or line.startswith('@POST_EXC('):
                 x = line[line.index('(') + 1:line.rindex(')')]
                 guard = '' if line.startswith('@POST(') else 'l0_exc == 0 || '
@@ -301,7 +309,7 @@ def build_unit_text(unit, xdir, specs, report):
     head.append('#ifndef CASE_PRED\n#define CASE_PRED 1\n#endif')
     head.append('#include "l0.h"')
     head.append('#include "inv.h"')
-    head.append('uint64_t g_N; struct vsnap pre_self, pre_o; struct gsnap pre_g; _Bool g_alias; uint64_t g_src, g_pos, g_pos2, g_cnt;')
+    head.append('uint64_t g_N, g_N2; struct vsnap pre_self, pre_o; struct gsnap pre_g; _Bool g_alias; uint64_t g_src, g_pos, g_pos2, g_cnt;')
     nhead = sum(h.count('\n') + 1 for h in head)
     body = '\n'.join(head) + '\n' + text + '\n#include "l0_globals.c"\n' + 'void harness(void) {\n%s\n  l0_havoc();\n  %s\n}\n' % (decls, call)
     cmap2 = {ln + nhead: v for ln, v in cmap.items() if ln != 'ordinals'}
